@@ -367,7 +367,7 @@ func c13GrpcFamilies(thorough bool) []*c13Family {
 
 	// --- syntax check
 	fams = append(fams, &c13Family{Route: "grpc-syntax", Fields: []c13Field{
-		c13F("content", "valid", []string{"valid"}, "none", "empty", "garbage", "json", "1MiB-a", "1MiB-open-paren", "1MiB-open-brace", "deep-class-nesting", "invalid-utf8", "nul-bytes", "unterminated-string", "unterminated-comment", "only-keyword", "huge-number", "bom", "crlf", "10000-classes", "long-identifier"),
+		c13F("content", "valid", []string{"valid"}, "none", "empty", "garbage", "json", "1MiB-a", "1MiB-open-paren", "1MiB-open-brace", "deep-class-nesting", "invalid-utf8", "nul-bytes", "unterminated-string", "unterminated-comment", "only-keyword", "huge-number", "bom", "crlf", "10000-classes", "long-identifier", "cyclic-subjectset-type-traversed", "mutually-cyclic-subjectset-types", "self-referential-permission", "forward-references"),
 	}, Build: func(ch map[string]string) *c13Req {
 		req := &oplv1.CheckRequest{Content: c13OPLContent(ch["content"])}
 		return &c13Req{Name: "SyntaxService.Check", Msg: &oplv1.CheckRequest{Content: []byte(c13Clip(string(req.Content), 200))}, GRPC: func(c *apih.Client, ctx context.Context) (proto.Message, error) { return c.S.SyntaxC.Check(ctx, req) }}
